@@ -212,6 +212,10 @@ impl Availability {
                 (avail <==> old(self)@.contains(idx)) ==> final(self)@ == old(self)@,   // setting a bit to its current value
     { unimplemented!() }
 
+    /// `#[derive(Default)]`: no bit set (Kani unit availability: the all-zero array has no available worker)
+    #[verifier::external_body]
+    pub fn default() -> (r: Availability) ensures r@ == Set::<usize>::empty() { unimplemented!() }
+
 //@extract file=actix-server/src/availability.rs item="impl Availability / fn set_available_all" props=C02,C04 name=availability::set_available_all
 //@spec
     requires forall|i: int| 0 <= i < handles@.len() ==> (#[trigger] handles@[i]).spec_idx() < 512,
@@ -335,7 +339,132 @@ pub open spec fn same_listeners(s: Seq<ServerSocketInfo>, o: Seq<ServerSocketInf
     &&& forall|k: int| 0 <= k < s.len() ==> (#[trigger] s[k]).token == o[k].token && s[k].lst.id() == o[k].lst.id()
 }
 
+/// ----- stand-ins for Accept::start -----
+#[verifier::external_body]
+pub struct BoxedFactory { _p: () }
+impl BoxedFactory { #[verifier::external_body] pub fn clone_factory(&self) -> (r: BoxedFactory) { unimplemented!() } }
+#[verifier::external_body]
+#[derive(Clone, Copy)]
+pub struct ServerWorkerConfig { _p: () }
+#[verifier::external_body]
+pub struct CmdSender { _p: () }
+impl Clone for CmdSender { #[verifier::external_body] fn clone(&self) -> (r: CmdSender) { unimplemented!() } }
+/// builder.rs ServerBuilder: the fields Accept::start reads (names checked in unit server_misc)
+pub struct ServerBuilder { pub threads: usize, pub factories: Vec<BoxedFactory>, pub worker_config: ServerWorkerConfig, pub cmd_tx: CmdSender }
+impl ServerHandle { #[verifier::external_body] pub fn new(tx: CmdSender) -> (r: ServerHandle) { unimplemented!() } }
+impl Poll {
+    /// a fresh poll instance; its ghost token bound is the number of listeners this server has (a ghost constant)
+    #[verifier::external_body]
+    pub fn new() -> (r: io::Result<Poll>) ensures r matches Ok(p) ==> p.spec_registry().token_bound() == n_listeners() { unimplemented!() }
+}
+impl WakerQueue { #[verifier::external_body] pub fn new(registry: &Registry) -> (r: io::Result<WakerQueue>) { unimplemented!() } }
+impl Clone for WakerQueue { #[verifier::external_body] fn clone(&self) -> (r: WakerQueue) { unimplemented!() } }
+pub struct WorkerHandleServer { pub idx: usize }
+pub struct ServerWorker { }
+impl ServerWorker {
+    /// worker.rs ServerWorker::start (contract proved in unit worker_start): both handle ends carry the index
+    #[verifier::external_body]
+    pub fn start(idx: usize, factories: Vec<BoxedFactory>, waker_queue: WakerQueue, config: ServerWorkerConfig)
+        -> (r: io::Result<(WorkerHandleAccept, WorkerHandleServer)>)
+        ensures r matches Ok(p) ==> p.0.spec_idx() == idx && p.1.idx == idx,
+    { unimplemented!() }
+}
+#[verifier::external_body]
+pub struct Str { _p: () }
+#[verifier::external_body]
+pub struct String { _p: () }
+impl Str { #[verifier::external_body] pub fn to_owned(&self) -> (r: String) { unimplemented!() } }
+#[verifier::external_body]
+pub fn vstr_lit(s: &'static str) -> (r: &'static Str) { unimplemented!() }
+#[verifier::external_body]
+pub struct ThreadBodyDone { _p: () }
+/// R11e
+#[verifier::external_body]
+pub fn vthread_body_done() -> (r: ThreadBodyDone) { unimplemented!() }
+pub mod thread {
+    use vstd::prelude::*;
+    use super::*;
+    #[verifier::external_body]
+    #[verifier::reject_recursive_types(T)]
+    pub struct JoinHandle<T> { _p: core::marker::PhantomData<T> }
+    #[verifier::external_body]
+    pub struct Builder { _p: () }
+    impl Builder {
+        #[verifier::external_body] pub fn new() -> (r: Builder) { unimplemented!() }
+        #[verifier::external_body] pub fn name(self, n: String) -> (r: Builder) { unimplemented!() }
+        #[verifier::external_body] pub fn spawn(self, f: ThreadBodyDone) -> (r: io::Result<JoinHandle<()>>) { unimplemented!() }
+    }
+}
+impl IoError {
+    #[verifier::external_body]
+    pub fn new<E>(kind: ErrorKind, e: E) -> (r: IoError) ensures r.spec_kind() == kind { unimplemented!() }
+}
+
+/// rule R9t: consuming iteration takes the elements from the front
+#[verifier::external_body]
+pub fn vec_take_first<T>(v: &mut Vec<T>) -> (r: T)
+    requires old(v)@.len() > 0,
+    ensures r == old(v)@[0], final(v)@ == old(v)@.subrange(1, old(v)@.len() as int),
+{ unimplemented!() }
+
 // ===================================================================== contracts on the real functions
+impl Accept {
+//@extract file=actix-server/src/accept.rs item="impl Accept / fn start" ret=r props=C01,C04,C05,C08 name=accept::start inline_thread_body str_lits closures=1
+//@replace pattern="let mut r9_a = Vec::new(); let mut r9_b = Vec::new();" rule=R9u
+let mut r9_a: Vec<WorkerHandleAccept> = Vec::new(); let mut r9_b: Vec<WorkerHandleServer> = Vec::new();
+//@replace pattern="let mut r9_out = Vec::new();" rule=R9l
+let mut r9_out: Vec<BoxedFactory> = Vec::new();
+//@spec
+    requires
+        // what ServerBuilder guarantees (unit server_misc): one listener per token, in token order; at most 512 workers
+        // (more make `Availability` panic: documented)
+        sockets@.len() == n_listeners(),
+        forall|k: int| 0 <= k < sockets@.len() ==> (#[trigger] sockets@[k]).0 == k && sockets@[k].1.id() == k,
+        builder.threads <= 512,
+    ensures
+        // one server-side handle per worker, worker i having index i   [C04,C08]
+        r matches Ok(p) ==> p.1@.len() == builder.threads && forall|i: int| 0 <= i < p.1@.len() ==> (#[trigger] p.1@[i]).idx == i,
+//@loop head="while idx < builder.threads"
+        invariant
+            idx <= builder.threads, builder.threads <= 512, r9_a@.len() == idx, r9_b@.len() == idx,
+            forall|i: int| 0 <= i < idx ==> (#[trigger] r9_a@[i]).spec_idx() == i,
+            forall|i: int| 0 <= i < idx ==> (#[trigger] r9_b@[i]).idx == i,
+        decreases builder.threads - idx,
+//@loop head="while r9_n < builder.factories.len()"
+        invariant r9_n <= builder.factories@.len(),
+        decreases builder.factories@.len() - r9_n,
+//@end
+
+//@extract file=actix-server/src/accept.rs item="impl Accept / fn new_with_sockets" ret=r props=C01,C04,C05,C08 name=accept::new_with_sockets sig_replace="Box<[ServerSocketInfo]>=>Vec<ServerSocketInfo>"
+//@replace pattern="let mut r9_out = Vec::new();" rule=R9t
+let mut r9_out: Vec<ServerSocketInfo> = Vec::new();
+//@spec
+    requires
+        // the builder's pairing (unit server_misc): listener k was created for token k; there is one per listener token
+        sockets@.len() == n_listeners(), n_listeners() == poll.spec_registry().token_bound(),
+        forall|k: int| 0 <= k < sockets@.len() ==> (#[trigger] sockets@[k]).0 == k && sockets@[k].1.id() == k,
+        forall|i: int| 0 <= i < accept_handles@.len() ==> (#[trigger] accept_handles@[i]).spec_idx() < 512,
+    ensures
+        // the accept loop STARTS in a state satisfying every invariant the loop functions preserve   [C01,C04,C05]
+        r matches Ok(p) ==> p.0.wf() && sockets_wf(p.1@, p.0.reg().token_bound()),   // [C01,C08]
+        r matches Ok(p) ==> i5(&p.0, p.1@) && !p.0.paused && p.0.timeout is None,   // [C05]
+        r matches Ok(p) ==> p.0.next == 0 && p.0.handles == accept_handles,   // [C04]
+        r matches Ok(p) ==> (forall|x: usize| p.0.avail@.contains(x) <==> p.0.has_idx(x)),      // [C04] every worker starts available
+        r matches Ok(p) ==> (forall|k: int| 0 <= k < p.1@.len() ==> (#[trigger] p.1@[k]).lst.registered() && p.1@[k].timeout is None),   // [C05] every listener starts registered
+//@loop 1
+        invariant
+            r9_out@.len() + r9_q@.len() == all.len(), r9_q@ == all.subrange(r9_out@.len() as int, all.len() as int),
+            all.len() == n_listeners(), n_listeners() == poll.spec_registry().token_bound(),
+            forall|k: int| 0 <= k < all.len() ==> (#[trigger] all[k]).0 == k && all[k].1.id() == k,
+            forall|k: int| 0 <= k < r9_out@.len() ==> (#[trigger] r9_out@[k]).token == k && r9_out@[k].lst.id() == k
+                && r9_out@[k].lst.registered() && r9_out@[k].timeout is None,
+        decreases r9_q@.len(),
+//@insert before="let sockets = ({ let mut r9_q = sockets;"
+        let ghost all = sockets@;
+//@end
+}
+
+
 //@extract file=actix-server/src/accept.rs item="fn connection_error" ret=r props=C05
 //@spec
     ensures
